@@ -42,8 +42,11 @@ FLAG_OF_FAMILY = {
     "protein": "PROTEIN_SET", "fat": "FAT_SET", "cull": "CULLING_PARAM_SET", "meat_strategy": "MEAT_STRATEGY_SET",
 }
 
-# README names a value the dispatcher does not know (reported; see DESIGN 5/C13 "Expected")
-README_ONLY_VALUES = {"ratio_stocks_untouched": ["no_stored_food_between_years"]}
+# values scenarios/README.md documents but neither value table lists (filled by load_tables from the README
+# of $VERIF_REPO; on the pinned tree: ratio_stocks_untouched=no_stored_food_between_years, DESIGN 5/C13 "Expected")
+README_ONLY_VALUES = {}
+README_VALUES = {}
+UNDOCUMENTED_VALUES = []  # accepted by the dispatcher, absent from the README (reported in probes only)
 # README lists them as allowed; the code prints "not working in this version" and exits
 README_DISABLED_VALUES = {"fat": ["required"], "protein": ["required"]}
 
@@ -572,10 +575,39 @@ def load_tables():
     with open(os.path.join(core.REPO_DIR, "data", "no_food_trade", "animal_feed_data", "FAOSTAT_head_and_slaughter.csv")) as f:
         header = f.readline().strip().split(",")
     SPECIES.extend([c[: -len("_head")] for c in header if c.endswith("_head")])
+    README_VALUES.update(parse_readme(os.path.join(core.REPO_DIR, "scenarios", "README.md")))
+    for fam in FAMILIES:
+        known = set(workload.COUNTRY_VALUES[fam]) | set(workload.GLOBAL_VALUES[fam])
+        extra = [v for v in README_VALUES.get(fam, []) if v not in known and v not in README_DISABLED_VALUES.get(fam, [])]
+        if extra:
+            README_ONLY_VALUES[fam] = extra
+        UNDOCUMENTED_VALUES.extend("%s=%s" % (fam, v) for v in sorted(known) if v not in README_VALUES.get(fam, []))
     import importlib
 
     with world.quiet():
         world.mods().yaml_runner = importlib.import_module("src.scenarios.run_scenarios_from_yaml")
+
+
+def parse_readme(path):
+    """'Allowed Values' section of scenarios/README.md -> {family: [documented values]}."""
+    import re
+
+    out, fam, on = {}, None, False
+    with open(path) as f:
+        for line in f:
+            if line.startswith("## "):
+                on = line.strip() == "## Allowed Values"
+                continue
+            if not on:
+                continue
+            m1 = re.match(r"^\s*- \*\*(\w+)\*\*\s*:", line)
+            if m1:
+                fam = m1.group(1)
+                continue
+            m2 = re.match(r"^\s*- `([^`]+)`", line)
+            if m2 and fam in FAMILIES:
+                out.setdefault(fam, []).append(m2.group(1))
+    return out
 
 
 class _Stop(BaseException):
@@ -1270,6 +1302,9 @@ def execute_ops(spec):
     finally:
         ctx.uninstall()
         world.leave_history(d)
+    if spec["h"] == 0:
+        for x in UNDOCUMENTED_VALUES:
+            ctx.probe("accepted_value_not_in_readme:" + x)
     for v in ctx.V.violations:
         log.add("MONITOR", clause=v.clause, identity=v.identity)
     if ctx.compute_reached:
